@@ -556,6 +556,27 @@ def check(case):
                 raise Failure('kind', 'HE ==/!= %s returned non-bool %s / %s' % (type(x).__name__, type(r).__name__, type(nr).__name__))
             if r is not False or nr is not True:
                 raise Failure('he-foreign', 'HE == %s is %s and != is %s (equals() is False for an operand of another kind)' % (type(x).__name__, r, nr))
+        # the same container with its labels re-given as Python objects in plain (object) indices: whenever == holds
+        # between the two, the hashes agree and a set holds one member (datetime64 labels against date objects, NumPy
+        # scalars against Python scalars)
+        def _objectified(ix):
+            labs = ix.values.tolist()
+            if ix.depth == 1:
+                arr = np.empty(len(labs), dtype=object)
+                arr[:] = labs
+                return sf.Index(arr, name=ix.name)
+            return sf.IndexHierarchy.from_labels([tuple(t) for t in labs], name=ix.name) if labs else None
+        tw_ix = lib(_objectified, h0.index)
+        if not isinstance(tw_ix, Raised) and tw_ix is not None:
+            tw = lib(lambda: h0.relabel(tw_ix) if kind == 'series' else h0.relabel(index=tw_ix))
+            if not isinstance(tw, Raised):
+                same = must(lambda: h0 == tw, what='HE == twin with object labels')
+                if same is True:
+                    if must(lambda: tw == h0, what='HE twin ==') is not True:
+                        raise Failure('asymmetric', 'HE == twin with object labels holds in one direction only')
+                    if must(hash, h0, what='hash(HE)') != must(hash, tw, what='hash(HE twin)'):
+                        raise Failure('hash', 'a == b but hash differs: labels %s against the same labels as Python objects in an object index' % type(h0.index).__name__)
+                    classes.append('he-twin-equal:' + type(h0.index).__name__)
         hs = [lib(hash, h) for h in he]
         if any(isinstance(h, Raised) for h in hs):
             bad = next(h for h in hs if isinstance(h, Raised))
